@@ -48,6 +48,8 @@ Section Laws.
   Definition dir_mt_only (s t : store) : Prop := forall p, sonode_eqv (s !! p) (t !! p).
 
   Record api_laws : Prop := {
+    (** the view is a view of the filesystem: it does not look at BackupFS's own bookkeeping *)
+    law_infos_indep : forall w i, V (with_infos w i) = V w;
     (** ** reading *)
     law_lstat_some : forall w p n, quiet w -> swf (V w) -> snolinkpar (V w) p -> V w !! p = Some n ->
       exists fi, ok_step (a_lstat a p) w fi (V w) /\ info_matches fi n /\ fi_mt fi = m_mt (node_meta n) /\
